@@ -6,6 +6,7 @@ import (
 	"encoding/binary"
 	"fmt"
 	"math/rand"
+	"os"
 	"sort"
 	"strings"
 	"sync"
@@ -983,7 +984,7 @@ func (cr *concRun) checkC01Linearizable(c *harness.Case) {
 	if cr.stalled {
 		return
 	}
-	if strings.HasPrefix(cr.cfg.kind, "tikv") {
+	if strings.HasPrefix(cr.cfg.kind, "tikv") && os.Getenv("VERIF_LIN_TIKV") == "" {
 		// On the TiKV mock a few heavily contended histories contain a guarded write answered "condition failed"
 		// (a write conflict, which the adapter maps to a failed compare) while reads just before and after still show
 		// the expected revision. Whether that is the mock's optimistic-transaction lock handling or something a real
